@@ -98,6 +98,7 @@ class C24(OpMachine):
         actions = []
         ends = [LO]
         spans = []
+        bps = []
         for _ in range(n):
             k = rng.choice(kinds)
             addr = rng.choice([rng.randrange(LO, HI), rng.choice(ends), rng.choice(ends) - rng.choice([1, 2, 3, 4, 7])])
@@ -133,6 +134,9 @@ class C24(OpMachine):
             elif k == "is_mapped":
                 actions.append([k, addr, rng.choice([1, 2, 4, 8, 20])])
             elif k == "bp_add":
+                if bps and rng.random() < 0.35:
+                    addr = rng.choice(bps)      # several breakpoints at one address (other size, same or other access)
+                bps.append(addr)
                 actions.append([k, addr, rng.choice([1, 1, 2, 4]), rng.choice([BP_READ, BP_WRITE, BP_READ | BP_WRITE])])
             elif k == "bp_remove":
                 actions.append([k, rng.randrange(4)])
